@@ -366,6 +366,9 @@ class MachO(BinFormat):
             elif op == BIND_OPCODE_SET_SYMBOL_TRAILING_FLAGS_IMM:
                 r.flags = im
                 nulchar = raw.find(b"\0", cur)
+                if nulchar < 0:
+                    # (cur would restart from 0 and never terminate)
+                    raise MachOError("unterminated symbol name in bind opcodes")
                 if nulchar > cur:
                     r.symbol = raw[cur:nulchar]
                 cur = nulchar + 1
